@@ -39,6 +39,7 @@ pub const SUBS: &[SubDef] = &[
     SubDef { prop: "C01", name: "assets", oracle: assets },
     SubDef { prop: "C01", name: "histories", oracle: histories },
     SubDef { prop: "C01", name: "long_histories", oracle: long_histories },
+    SubDef { prop: "C01", name: "entry_points_raw", oracle: entry_points_raw },
 ];
 
 fn run(ctx: &Ctx) {
@@ -51,7 +52,18 @@ fn run(ctx: &Ctx) {
     }
     ctx.run_enum("assets", assets, true, "the four files of /repo/assets cut at every prefix length, through every entry point", cases.into_iter());
     ctx.run_tape("histories", histories, ctx.pick(3_000, 100_000), 1200);
-    ctx.run_tape("long_histories", long_histories, ctx.pick(4, 200), 4000);
+    if ctx.tier == Tier::Quick {
+        // one stream of each length class (300 / 700 / 1500 / 1600 records), the rest of each tape derived from the seed
+        let cases = (0..4u8).map(|m| {
+            let mut v = vec![m];
+            v.extend(vmodel::tape::fill(ctx.seed ^ (0xC01 + m as u64), 4000));
+            v
+        });
+        ctx.run_enum("long_histories", long_histories, false, "4 streams of 300 / 700 / 1500 / 1600 records of up to 16 KiB (up to 26 MiB fed, beyond the 10 MiB limit)", cases.collect::<Vec<_>>().into_iter());
+    } else {
+        ctx.run_tape("long_histories", long_histories, 200, 4000);
+    }
+    ctx.run_tape("entry_points_raw", entry_points_raw, ctx.pick(4_000, 200_000), 80);
 }
 
 fn k_factor() -> usize {
@@ -480,6 +492,25 @@ fn entry_points(t: &mut Tape, obs: &mut Obs) -> R {
     Ok(())
 }
 
+/// the tape itself is the input (pure byte soup under proptest; the coverage-guided target of the libFuzzer campaign);
+/// extra arguments come from a tape expanded from the input's hash
+fn entry_points_raw(t: &mut Tape, obs: &mut Obs) -> R {
+    let mut input = Vec::new();
+    while !t.exhausted() {
+        input.push(t.u8());
+    }
+    let argbytes = vmodel::tape::fill(fnv64(&input) | 1, 1024);
+    let mut at = Tape::new(&argbytes);
+    alloc::inflight_set("C01", "entry_points_raw", &input);
+    let r = run_all(&input, &mut at, obs, "entry");
+    alloc::inflight_clear();
+    if r? {
+        obs.nontrivial(fnv64(&input));
+        obs.sample(json!({"family": "raw", "len": input.len(), "hex": hex_short(&input)}));
+    }
+    Ok(())
+}
+
 /// parameter tape: [file index, prefix_hi, prefix_lo]
 fn assets(t: &mut Tape, obs: &mut Obs) -> R {
     let fi = t.u8() as usize;
@@ -503,12 +534,15 @@ fn run_history(ops: &[Op], obs: &mut Obs) -> R {
     let k = k_factor();
     let mut p = TlsRecordsParser::default();
     let mut fed = 0usize;
+    let mut retained: isize = 0;
     let mut trace = String::new();
     let mut in_progress_calls = 0;
     for op in ops {
         let rec = match op {
             Op::Reset => {
-                guard("reset", || p.reset())?;
+                let (r, st) = alloc::measure(|| guard("reset", || p.reset()));
+                r?;
+                retained += st.net;
                 continue;
             }
             Op::Parse(r) | Op::NoCopy(r) => r,
@@ -528,8 +562,12 @@ fn run_history(ops: &[Op], obs: &mut Obs) -> R {
         // Debug of the parser itself prints the whole buffer: done while it is small, and once at the end
         let small = p.verif_defrag_buffer().len() <= 64 * 1024;
         let (_, dst) = if small { alloc::measure(|| format!("{:?}", p).len()) } else { (0usize, Stats::default()) };
-        let bound = 64 * 1024 + 10 * 1024 * 1024 + (k + 2) * fed;
-        ensure!(st.peak <= bound && st.total <= 2 * bound, "C01:history:alloc", "{} after [{}]: peak {} total {} bytes, bound {} ({} bytes fed so far)", op_label(op), trunc(&trace), st.peak, st.total, bound, fed);
+        // per call: a linear function of this record plus the documented 10 MiB buffer (x3: growing a Vec holds the old and the doubled new block)
+        let bound = 64 * 1024 + 3 * 10 * 1024 * 1024 + (k + 2) * rec.data.len();
+        ensure!(st.peak <= bound && st.total <= 2 * bound, "C01:history:alloc", "{} after [{}]: peak {} total {} bytes, bound 64 KiB + 3 x 10 MiB + {} x record length = {} ({} bytes fed so far)", op_label(op), trunc(&trace), st.peak, st.total, k + 2, bound, fed);
+        // across calls: what the parser keeps allocated stays within twice its documented buffer (capacity doubling)
+        retained += st.net;
+        ensure!(retained <= (64 * 1024 + 2 * 10 * 1024 * 1024) as isize, "C01:history:retained", "{}: the parser retains {} bytes of heap after {} bytes were fed (documented buffer: 10 MiB)", op_label(op), retained, fed);
         let fbound = 64 * 1024 + 1024 * (fed + 1);
         ensure!(fst.peak <= fbound + 60 * 1024 * 1024 && dst.peak <= 64 * 1024 + 8 * (10 * 1024 * 1024 + fed), "C01:history:alloc-format", "{}: formatting used {} / {} bytes", op_label(op), fst.peak, dst.peak);
         if trace.len() < 300 {
@@ -541,7 +579,7 @@ fn run_history(ops: &[Op], obs: &mut Obs) -> R {
     ensure!(dst.peak <= 64 * 1024 + 16 * (10 * 1024 * 1024 + fed), "C01:history:alloc-format", "formatting the parser used {} bytes", dst.peak);
     if in_progress_calls > 0 {
         obs.nontrivial(fnv64(trace.as_bytes()) ^ ops.len() as u64);
-        obs.sample(json!({"ops": ops.len(), "calls_while_defragmenting": in_progress_calls, "history": trunc(&trace)}));
+        obs.sample(json!({"ops": ops.len(), "calls_while_defragmenting": in_progress_calls, "bytes_fed": fed, "heap_retained_by_parser": retained, "history": trunc(&trace)}));
     }
     obs.class(&format!("in_progress_calls={}", in_progress_calls.min(9)));
     Ok(())
@@ -566,10 +604,12 @@ fn histories(t: &mut Tape, obs: &mut Obs) -> R {
     r
 }
 
-/// long streams (up to 700 records of up to 16 KiB): reach the 10 MiB cap with content that never completes
+/// long streams (up to 1600 records of up to 16 KiB = 25 MiB fed): reach the 10 MiB cap with content that never completes
 fn long_histories(t: &mut Tape, obs: &mut Obs) -> R {
-    let n = 100 + t.below(600);
-    let ctype = t.pick(&[0x16u8, 0x18, 0x16]);
+    let mode = t.u8() as usize % 4;
+    let n = [300usize, 700, 1500, 1600][mode] + t.below(100);
+    // the two longest classes are handshake streams (a heartbeat stream completes after 64 KiB)
+    let ctype = if mode >= 2 { 0x16 } else { t.pick(&[0x16u8, 0x18, 0x16]) };
     let mut ops = Vec::new();
     let mut first = Enc::new();
     if ctype == 0x16 {
@@ -583,9 +623,10 @@ fn long_histories(t: &mut Tape, obs: &mut Obs) -> R {
     for i in 0..n {
         let sz = if t.chance(200) { 16640 } else { t.below(16641) };
         let r = super::c07::Rec::new(if t.chance(6) { 0x17 } else { ctype }, 0x0303, vec![(i & 0xff) as u8; sz]);
+        // resets are rare (about one per 5000 records): the point of these streams is to run into the size limit
         ops.push(match t.below(20) {
             0 => Op::NoCopy(r),
-            1 if t.chance(20) => Op::Reset,
+            1 if mode != 2 && t.chance(1) => Op::Reset,
             _ => Op::Parse(r),
         });
     }
